@@ -510,11 +510,34 @@ impl Runner {
                     "ok".into()
                 })
             }
+            ["U", k] => {
+                let Some(k) = num(k) else { return "BADOP".into() };
+                let Some(Some(snap)) = self.slots.get(k as usize).cloned() else { return "NOSLOT".into() };
+                if self.parser.is_none() {
+                    return "NOPARSER".into();
+                }
+                if self.slot_f12.get(k as usize).copied().unwrap_or(false) {
+                    self.cols_changed = true;
+                }
+                self.guarded(|me| {
+                    *me.parser.as_mut().unwrap().screen_mut() = snap.clone();
+                    "ok".into()
+                })
+            }
             ["S", k] => {
                 let Some(k) = num(k) else { return "BADOP".into() };
+                let old_slot = if (k as usize) < NSLOTS { self.slots[k as usize].take() } else { None };
                 match self.screen() {
                     Some(s) if (k as usize) < NSLOTS => {
-                        let s = s.clone();
+                        // both ways of copying a screen the public API offers: a fresh `clone()`, or — when the
+                        // slot already holds a snapshot — `clone_from()` into it
+                        let s = match old_slot {
+                            Some(mut old) => {
+                                old.clone_from(s);
+                                old
+                            }
+                            None => s.clone(),
+                        };
                         self.slots[k as usize] = Some(s);
                         self.slot_f12[k as usize] = self.cols_changed;
                         "ok".into()
